@@ -454,6 +454,8 @@ def _written_order(fn_export: ast.FunctionDef, arg: ast.expr) -> Optional[str]:
         if o is None:
             return "C"
         cv = const(o)
+        if cv in ("K", "A"):
+            return "MEM"  # listing follows the array's memory layout, not its logical order
         return cv if cv in ("F", "C") else None
     if isinstance(e, (ast.Attribute, ast.Name)):
         return "C"
@@ -520,7 +522,11 @@ def _layout(prog, res, exp, imp, eb, ib) -> None:
                 rcall = c
     desc = "dense tensor: enumeration order written == order rebuilt on import"
     where = prog.loc(exp, wcall) if wcall is not None else prog.loc(exp)
-    if worder is None or rorder is None or not passthrough:
+    if worder == "MEM":
+        res.bad("IO-layout", "export_data.export_data", desc, where,
+                "the data is flattened in MEMORY order (order='K'/'A'): the file order then depends on how the array happens to be laid out "
+                "(a tensor whose data is C-contiguous, e.g. after growth by assignment, is written in C order) while the importer rebuilds in F order")
+    elif worder is None or rorder is None or not passthrough:
         res.undecided("IO-layout", "export_data.export_data", desc, where, f"written {worder}, read {rorder}, passthrough {passthrough}")
     elif worder == rorder:
         res.ok("IO-layout", "export_data.export_data", desc, where, f"written {worder}, rebuilt {rorder}")
